@@ -146,7 +146,7 @@ Definition conn_step (cf : cconf) (pl : cplugin) (st : cstate) (i : cinput) : cs
       | IApprove => (mkC POpenConfirm (c_holdns st) (c_nupd st), [])
       | IStop => (* disabled while transitioning with a live connection: Cease, then cleanup() *)
           (mkC PDone (c_holdns st) (c_nupd st),
-           [AWrite (notif_encode cease); ACloseConn; AStopHold; AStopKA; AReturn c_disabledState ENone])
+           [AWrite (notif_encode cease); ACloseConn; AStopHold; AStopKA])   (* fsm.run returns *)
       | _ => (st, [])   (* not selecting on the reader or timers here *)
       end
   | PWaitEst =>
@@ -156,7 +156,7 @@ Definition conn_step (cf : cconf) (pl : cplugin) (st : cstate) (i : cinput) : cs
            AOnEstablished :: map (fun b => AWrite (update_frame b)) (pl_est_writes pl))
       | IStop =>
           (mkC PDone (c_holdns st) (c_nupd st),
-           [AWrite (notif_encode cease); ACloseConn; AStopHold; AStopKA; AReturn c_disabledState ENone])
+           [AWrite (notif_encode cease); ACloseConn; AStopHold; AStopKA])
       | _ => (st, [])
       end
   | POpenSent =>
